@@ -246,7 +246,9 @@ class BuiltinMixin:
         if star is not None:
             els.append(elem_of(elem_of(star)))
             return mk("iter", elem=mk("tuple", elem=join_all(els)), taint=_t(*pos, star))
-        return mk("iter", elem=mk("tuple", tup=tuple(e if not e.is_bottom else ANY for e in els)),
+        if any(e.is_bottom for e in els):
+            return mk("iter")     # zip with an empty operand yields nothing
+        return mk("iter", elem=mk("tuple", tup=tuple(els)),
                   nonempty=bool(pos) and all(v.nonempty for v in pos), taint=_t(*pos))
 
     def bf_enumerate(self, pos, kw, star, node, env, frame):
@@ -254,7 +256,9 @@ class BuiltinMixin:
             return mk("iter")
         v = pos[0]
         el = self._iterate(v, node, env, frame)
-        return mk("iter", elem=mk("tuple", tup=(INT, el if not el.is_bottom else ANY)), nonempty=v.nonempty, taint=v.taint and 1)
+        if el.is_bottom:
+            return mk("iter")     # enumerate of an empty container yields nothing
+        return mk("iter", elem=mk("tuple", tup=(INT, el)), nonempty=v.nonempty, taint=v.taint and 1)
 
     def bf_map(self, pos, kw, star, node, env, frame):
         if len(pos) >= 2:
